@@ -169,7 +169,87 @@ theorem subg_example_no_run_beats_bound (f : E → ℝ) (M R : ℝ) (γ : Coef) 
   refine ⟨k, hk, φ (1 + k) - φ 0, subg_metric_den v φ γ n k hk, ?_⟩
   rw [hval k, hstar, subgX_is_subgIter]; exact hb
 
+/-! ## proximal gradient (composite_convex_minimization.proximal_gradient) -/
+
+theorem wf_pgX (γ : Coef) : ∀ k, (Dict.keys (pgX γ k)).Nodup
+  | 0 => nodup_single 2 1
+  | k + 1 => PDict.wf_sub _ _ (PDict.wf_sub _ _ (wf_pgX γ k))
+
+/-- one step of the script: `x_{k+1} = (x_k − γ·∇f1(x_k)) − γ·s_{k+1}` with the two leaves the step creates -/
+theorem den_pgX_succ (v : Nat → E) (γ : Coef) (k : Nat) :
+    PDict.den v (pgX γ (k + 1)) =
+      (PDict.den v (pgX γ k) - ((γ : ℚ) : ℝ) • v (3 + 2 * k)) - ((γ : ℚ) : ℝ) • v (4 + 2 * k) := by
+  rw [pgX, den_stepPt, den_stepPt]
+
+def pgMetric (γ : Coef) (n : Nat) : EDict := PDict.sq (PDict.sub (pgX γ n) [(0, 1)])
+def pgInit (γ : Coef) : EDict := EDict.subConst (PDict.sq (PDict.sub (pgX γ 0) [(0, 1)])) 1
+theorem pg_metrics (γ : Coef) (n : Nat) : (pg γ n).metrics = [pgMetric γ n] := rfl
+theorem pg_init (γ : Coef) (n : Nat) : (pg γ n).init = [(pgInit γ, false)] := rfl
+
+theorem pg_metric_den (v : Nat → E) (φ : Nat → ℝ) (γ : Coef) (n : Nat) :
+    EDict.den v φ (pgMetric γ n) = ‖PDict.den v (pgX γ n) - v 0‖ ^ 2 := by
+  unfold pgMetric PDict.sq
+  rw [den_ip, PDict.den_sub v (pgX γ n) [(0, 1)] (nodup_single 0 1), real_inner_self_eq_norm_sq, denP_single]
+
+theorem pg_init_den (v : Nat → E) (φ : Nat → ℝ) (γ : Coef) :
+    EDict.den v φ (pgInit γ) = ‖v 2 - v 0‖ ^ 2 - 1 := by
+  unfold pgInit EDict.subConst PDict.sq
+  rw [EDict.den_addConst, den_ip, PDict.den_sub v (pgX γ 0) [(0, 1)] (nodup_single 0 1), real_inner_self_eq_norm_sq]
+  simp [pgX, denP_single]; ring
+
+/-- **no real run beats the closed form, for the proximal-gradient script itself**: `f` `μ`-strongly convex and `L`-smooth
+with gradient `g`, `h` convex; every interpretation of the script's leaves consistent with `(f, h)` — the leaves recorded as
+gradients of `f1` are `g` at the recorded points, the leaves recorded by the proximal steps are subgradients of `h` at
+the new points, and `x⋆` is a stationary point of `f + h` the way the script records it (`−∇f(x⋆) ∈ ∂h(x⋆)`) — whose
+start satisfies the script's initial condition: the script's metric `‖x_n − x⋆‖²` is at most
+`max((1−γμ)², (1−γL)²)ⁿ`, the value the example returns -/
+theorem pg_example_no_run_beats_bound (f : E → ℝ) (g : E → E) (h : E → ℝ) (μ L : ℝ) (γ : Coef)
+    (hμ : 0 < μ) (hμL : μ < L) (hγ : 0 ≤ ((γ : ℚ) : ℝ))
+    (hconv : ∀ x y, f y ≥ f x + ⟪g x, y - x⟫ + μ / 2 * ‖y - x‖ ^ 2)
+    (hsm : ∀ x y, f y ≤ f x + ⟪g x, y - x⟫ + L / 2 * ‖y - x‖ ^ 2)
+    (v : Nat → E) (φ : Nat → ℝ) (n : Nat)
+    (hgs : v 1 = g (v 0)) (hss : ∀ z, h z ≥ h (v 0) + ⟪-(v 1), z - v 0⟫)
+    (hg : ∀ k, k < n → v (3 + 2 * k) = g (PDict.den v (pgX γ k)))
+    (hs : ∀ k, k < n → ∀ z, h z ≥ h (PDict.den v (pgX γ (k + 1))) + ⟪v (4 + 2 * k), z - PDict.den v (pgX γ (k + 1))⟫)
+    (hinit : ∀ c ∈ (pg γ n).init, EDict.den v φ c.1 ≤ 0) :
+    ∀ m ∈ (pg γ n).metrics, EDict.den v φ m ≤ max ((1 - ((γ : ℚ) : ℝ) * μ) ^ 2) ((1 - ((γ : ℚ) : ℝ) * L) ^ 2) ^ n := by
+  intro m hm
+  rw [pg_metrics, List.mem_singleton] at hm
+  subst hm
+  have h0 : ‖v 2 - v 0‖ ^ 2 ≤ 1 := by
+    have := hinit (pgInit γ, false) (by rw [pg_init]; simp)
+    rw [pg_init_den] at this
+    linarith
+  set ρ := max ((1 - ((γ : ℚ) : ℝ) * μ) ^ 2) ((1 - ((γ : ℚ) : ℝ) * L) ^ 2) with hρdef
+  have hρ : 0 ≤ ρ := le_max_of_le_left (sq_nonneg _)
+  -- `x⋆` is a fixed point of the proximal-gradient map, in the form `pg_contraction` wants
+  have hfix : v 0 = (v 0 - ((γ : ℚ) : ℝ) • g (v 0)) - ((γ : ℚ) : ℝ) • (-(v 1)) := by
+    rw [← hgs]; simp
+  have key : ∀ k, k ≤ n → ‖PDict.den v (pgX γ k) - v 0‖ ^ 2 ≤ ρ ^ k * ‖v 2 - v 0‖ ^ 2 := by
+    intro k
+    induction k with
+    | zero => intro _; simp [pgX, denP_single]
+    | succ k ih =>
+      intro hk
+      have hk' : k < n := hk
+      have ihk := ih (Nat.le_of_lt hk')
+      have hstep : PDict.den v (pgX γ (k + 1)) =
+          (PDict.den v (pgX γ k) - ((γ : ℚ) : ℝ) • g (PDict.den v (pgX γ k))) - ((γ : ℚ) : ℝ) • v (4 + 2 * k) := by
+        rw [den_pgX_succ, hg k hk']
+      have hc := Pepit.C10.pg_contraction f g h μ L ((γ : ℚ) : ℝ) hμ hμL hγ hconv hsm
+        (PDict.den v (pgX γ k)) (v 0) (PDict.den v (pgX γ (k + 1))) (v 0) (v (4 + 2 * k)) (-(v 1))
+        hstep hfix (hs k hk') hss
+      calc ‖PDict.den v (pgX γ (k + 1)) - v 0‖ ^ 2 ≤ ρ * ‖PDict.den v (pgX γ k) - v 0‖ ^ 2 := hc
+        _ ≤ ρ * (ρ ^ k * ‖v 2 - v 0‖ ^ 2) := mul_le_mul_of_nonneg_left ihk hρ
+        _ = ρ ^ (k + 1) * ‖v 2 - v 0‖ ^ 2 := by ring
+  rw [pg_metric_den]
+  calc ‖PDict.den v (pgX γ n) - v 0‖ ^ 2 ≤ ρ ^ n * ‖v 2 - v 0‖ ^ 2 := key n (Nat.le_refl n)
+    _ ≤ ρ ^ n * 1 := mul_le_mul_of_nonneg_left h0 (pow_nonneg hρ n)
+    _ = ρ ^ n := mul_one _
+
 end Pepit.C09M
+
+#print axioms Pepit.C09M.pg_example_no_run_beats_bound
 
 #print axioms Pepit.C09M.gdc_example_no_run_beats_bound
 #print axioms Pepit.C09M.subg_example_no_run_beats_bound
